@@ -102,6 +102,12 @@ def gen(seed, tier):
         s = sentence(129029, 77, 3, [r.randrange(256) for _ in range(n)])
         star = s.rindex(b'*')
         imp(s[:star] + b'A' + s[star:]); imp(s[:star - 1] + s[star:]) if n else None
+        # ... and the same with the checksum recomputed over the odd-length field (the sentence's only fault is the odd count; seed C19-19)
+        for body in [s[:star] + x for x in (b'A', b'0', b'f', b'G', b' ')] + ([s[:star - 1]] if n else []):
+            ck = 0
+            for c in body[1:]:
+                ck ^= c
+            imp(body + b'*%02X' % ck)
     # prefix variations
     for pre in [b'', b'$', b'$PCDI', b'$PCDIN', b'$PCDIN,', b'$PCDIN*', b'$PCDINx01F119,00000000,0F,*00', b'$PCDIN,*', b'$pcdin,01F119,00000000,0F,*3B',
                 b'$PCDIN,0', b'$PCDIN,01', b'$PCDIN,01F1', b'$PCDIN,01F119', b'$PCDIN,01F119,', b'$PCDIN,01F119,0000000', b'$PCDIN,01F119,00000000',
